@@ -27,6 +27,7 @@ Definition nto_eqb := list_eqb (fun (a b : string * item) => String.eqb (fst a) 
 
 Record pcase := {
   p_kws : list string;                       (* sorted(writer.pddl_keywords) when the requests were made *)
+  p_feats : list string;                     (* features of the problem, computed by the harness from the Problem *)
   p_hier : bool;                             (* has_hierarchical_typing() or len(user_types) > 1 *)
   p_pnames : list string;
   p_reqs : list item;                        (* the _get_mangled_name calls, in order *)
@@ -38,7 +39,10 @@ Record pcase := {
   p_direct : list (item * list string * string)   (* _get_pddl_name(item, kws) called directly *)
 }.
 
+Definition same_set (a b : list string) : bool := subset_b a b && subset_b b a.
+
 Definition pddl_ok (c : pcase) : bool :=
+  same_set (pddl_writer_kws (fun f => mem_str f (p_feats c))) (p_kws c) &&
   match pddl_run (pddl_cfg (p_kws c)) (p_hier c) (p_pnames c) (p_reqs c) with
   | None => false
   | Some (ns, st) =>
@@ -75,9 +79,9 @@ Definition ok (c : case) : bool := match c with PC p => pddl_ok p | AC a => anml
 (* what the model answers, for replay files *)
 Definition model_answer (c : case) :=
   match c with
-  | PC p => (option_map (fun r => (fst r, otn (snd r))) (pddl_run (pddl_cfg (p_kws p)) (p_hier p) (p_pnames p) (p_reqs p)),
+  | PC p => (pddl_writer_kws (fun f => mem_str f (p_feats p)), option_map (fun r => (fst r, otn (snd r))) (pddl_run (pddl_cfg (p_kws p)) (p_hier p) (p_pnames p) (p_reqs p)),
              map (fun d => match d with (it, kws, _) => pddl_name (pddl_cfg kws) it end) (p_direct p))
-  | AC a => (option_map (fun r => (map (fun o => match o with Some s => s | None => "" end) (fst r), snd r))
+  | AC a => ([], option_map (fun r => (map (fun o => match o with Some s => s | None => "" end) (fst r), snd r))
                         (anml_run_from anml_vcfg anml_cfg (a_start a) (a_ops a)),
              map (fun d => base_name anml_cfg (fst d)) (a_direct a))
   end.
